@@ -50,6 +50,7 @@ func buildFork(cs caseSpec, thorough bool) *Scenario {
 	g := NewGen(r, cs.NewState, opt)
 	g.BiasSys = r.Chance(1, 3)
 	g.ImplicitClasses = r.Chance(1, 3)
+	g.Repeats = true
 	maxL := 9
 	if thorough {
 		maxL = 14
@@ -208,6 +209,44 @@ var directedScenarios = []directed{
 		return &Scenario{Main: []*lib.BlockSpec{declareSierra(D().Spec("0.13.4"), 11, false), D().Spec("0.14.1"), m1},
 			Rounds: []Round{{Revert: 1, Fork: []*lib.BlockSpec{D().Spec("0.14.1"), m2}}, {Revert: 1, Fork: []*lib.BlockSpec{D().Spec("0.14.1")}}}, Restart: true}
 	}},
+	// round 6: after the revert the node is offered a block that repeats what the surviving chain did (or touches
+	// what the revert removed); Store must refuse it — or, if it stores it, undo it exactly
+	{"migrated-class-offered-again-after-a-revert", func(ns bool) *Scenario {
+		h, _, _, c2 := mySierra(12)
+		m1 := D().Deploy(0x104, 0xc000).Spec("0.14.1")
+		m1.Diff.MigratedClasses[felt.SierraClassHash(h)] = felt.CasmClassHash(c2)
+		sc := sc1([]*lib.BlockSpec{declareSierra(D().Spec("0.13.4"), 12, false), D().Spec("0.14.1"), m1, D().Set(0x104, 1, 5).Spec("0.14.1")}, 1,
+			D().Set(0x104, 1, 6).Spec("0.14.1"))
+		sc.Rounds[0].RefusedKind = "already-migrated-class-migrated-again"
+		sc.Rounds[0].Refused = refusedSpec("0.14.1", func(d *core.StateDiff, _ map[felt.Felt]core.ClassDefinition) {
+			d.MigratedClasses[felt.SierraClassHash(h)] = felt.CasmClassHash(c2)
+		})
+		return sc
+	}},
+	{"v2-declared-class-offered-for-migration", func(ns bool) *Scenario {
+		h, _, _, c2 := mySierra(13)
+		sc := sc1([]*lib.BlockSpec{D().Deploy(0x104, 0xc000).Spec("0.14.1"), declareSierra(D().Spec("0.14.1"), 13, true), D().Nonce(0x104, 1).Spec("0.14.1")}, 1,
+			D().Nonce(0x104, 2).Spec("0.14.1"))
+		sc.Rounds[0].RefusedKind = "v2-declared-class-migrated"
+		sc.Rounds[0].Refused = refusedSpec("0.14.1", func(d *core.StateDiff, _ map[felt.Felt]core.ClassDefinition) {
+			d.MigratedClasses[felt.SierraClassHash(h)] = felt.CasmClassHash(c2)
+		})
+		return sc
+	}},
+	{"deployed-address-offered-again-after-a-revert", func(ns bool) *Scenario {
+		sc := sc1(specs("0.14.0", D().Deploy(0x104, 0xc000).Set(0x104, 1, 1), D().Replace(0x104, 0xc001).Nonce(0x104, 1), D().Set(0x104, 1, 2)), 1,
+			D().Set(0x104, 1, 3).Spec("0.14.0"))
+		sc.Rounds[0].RefusedKind = "deployed-address-deployed-again"
+		sc.Rounds[0].Refused = D().Deploy(0x104, 0xc001).Spec("0.14.0") // the class it has
+		return sc
+	}},
+	{"contract-touched-after-its-deployment-was-reverted", func(ns bool) *Scenario {
+		sc := sc1(specs("0.14.0", D().Deploy(0x104, 0xc000), D().Deploy(0x105, 0xc001).Set(0x105, 1, 1).Nonce(0x105, 1)), 1,
+			D().Deploy(0x105, 0xc002).Spec("0.14.0"))
+		sc.Rounds[0].RefusedKind = "nonce-of-absent-contract"
+		sc.Rounds[0].Refused = D().Nonce(0x105, 2).Spec("0.14.0")
+		return sc
+	}},
 	{"l1-handler-reverted-and-resent", func(ns bool) *Scenario {
 		tx, rc := l1Tx(7)
 		a := D().Deploy(0x104, 0xc000).Spec("0.14.0")
@@ -358,6 +397,15 @@ var outsideScenarios = []directed{
 		s := declareSierra(D().Spec("0.14.1"), 9, true)
 		s.Classes = map[felt.Felt]core.ClassDefinition{}
 		return sc1([]*lib.BlockSpec{D().Spec("0.14.1"), s}, 1)
+	}},
+	{"refused:sierra-declaration-without-compiled-class-below-0.14.1", func(ns bool) *Scenario { // 302c657
+		s := declareSierra(D().Deploy(0x104, 0xc000).Spec("0.14.0"), 14, false)
+		for h, def := range s.Classes {
+			c := *def.(*core.SierraClass)
+			c.Compiled = nil
+			s.Classes[h] = &c
+		}
+		return sc1([]*lib.BlockSpec{D().Spec("0.14.0"), s}, 1)
 	}},
 	{"decl1:sierra-class-declared-again-with-the-v2-hash", func(ns bool) *Scenario {
 		return sc1([]*lib.BlockSpec{declareSierra(D().Spec("0.14.1"), 10, true), declareSierra(D().Spec("0.14.1"), 10, true)}, 1)
@@ -528,7 +576,7 @@ func cloneScenario(sc *Scenario) *Scenario {
 	c.Main = append([]*lib.BlockSpec{}, sc.Main...)
 	c.Rounds = nil
 	for _, rd := range sc.Rounds {
-		c.Rounds = append(c.Rounds, Round{Revert: rd.Revert, Fork: append([]*lib.BlockSpec{}, rd.Fork...)})
+		c.Rounds = append(c.Rounds, Round{Revert: rd.Revert, Fork: append([]*lib.BlockSpec{}, rd.Fork...), Refused: rd.Refused, RefusedKind: rd.RefusedKind})
 	}
 	return &c
 }
@@ -686,6 +734,22 @@ func shrink(sc *Scenario, sig string, opt lib.GenOptions, budget int) *Scenario 
 				continue
 			}
 		}
+		dropped := false
+		for ri := range best.Rounds {
+			if best.Rounds[ri].Refused == nil {
+				continue
+			}
+			c := cloneScenario(best)
+			c.Rounds[ri].Refused, c.Rounds[ri].RefusedKind = nil, ""
+			if try(c) {
+				dropped = true
+				break
+			}
+		}
+		if dropped {
+			progress = true
+			continue
+		}
 		if best.FailedOps {
 			c := cloneScenario(best)
 			c.FailedOps = false
@@ -741,7 +805,11 @@ func scenarioText(sc *Scenario) map[string]any {
 		for _, s := range rd.Fork {
 			fk = append(fk, specSummary(s))
 		}
-		rounds = append(rounds, map[string]any{"revert": rd.Revert, "then_store": fk})
+		m := map[string]any{"revert": rd.Revert, "then_store": fk}
+		if rd.Refused != nil {
+			m["offered_after_the_reverts_(must_be_refused_or_undone)"] = rd.RefusedKind + ": " + specSummary(rd.Refused)
+		}
+		rounds = append(rounds, m)
 	}
 	if len(main) > 24 {
 		main = append([]string{fmt.Sprintf("... %d earlier blocks ...", len(main)-24)}, main[len(main)-24:]...)
@@ -932,11 +1000,13 @@ func main() {
 		}
 	}
 
-	if only := os.Getenv("C04_ONLY"); only != "" { // developer aid: run one kind of case
+	if only := os.Getenv("C04_ONLY"); only != "" { // developer aid: run some kinds of case only (comma separated)
 		var keep []caseSpec
 		for _, c := range cases {
-			if c.Kind == only {
-				keep = append(keep, c)
+			for _, k := range strings.Split(only, ",") {
+				if c.Kind == k {
+					keep = append(keep, c)
+				}
 			}
 		}
 		cases = keep
